@@ -77,8 +77,11 @@ func (ups *Http) Connect(manager cert.TlsConfig, mustSecure bool) error {
 	stream = streams.NewWebsocketTunnelConnection(c)
 	cc, err := socketace.NewClientConnection(stream, manager, secure, ups.Address.Host)
 	if err != nil {
+		// the attempt is over: the physical connection made for it is ours to close
+		streams.TryClose(stream)
 		return errors.Wrapf(err, "Could not open connection")
 	} else if mustSecure && !cc.Secure() {
+		streams.TryClose(cc)
 		return errors.Errorf("Could not establish a secure connection to %v", ups.Address)
 	} else {
 		stream = cc
